@@ -266,6 +266,7 @@ type tracer struct {
 	mu    sync.Mutex // only for the calls map; events are appended under tssMu
 	calls map[*time.Time]callInfo
 	evs   []event
+	panics []event
 	seq   int
 	full  bool
 }
@@ -320,8 +321,23 @@ func doHandle(tr *tracer, l, c string, rq reqJ, rxt0, clkv int) (time.Time, time
 	rxt := ut(rxt0)
 	var txt time.Time
 	tr.register(&txt, callInfo{l: l, rxt0: rxt0, clk: clkv})
-	server.VerifHandleRequest(c, &req, &rxt, &txt, &resp)
+	func() {
+		defer tr.recovered("H", l, c)
+		server.VerifHandleRequest(c, &req, &rxt, &txt, &resp)
+	}()
 	return rxt, txt
+}
+
+// recovered turns a panic inside the real handler into a recorded event (the
+// monitor's NoPanic clause fails on it). tssMu may still be held by the
+// panicking call only if the code panicked without a deferred unlock; both real
+// functions unlock by defer.
+func (tr *tracer) recovered(opk, l, c string) {
+	if r := recover(); r != nil {
+		tr.mu.Lock()
+		tr.panics = append(tr.panics, event{Ev: "panic", L: l, C: c, Why: fmt.Sprintf("%s: %v", opk, r), Post: emptyPost(tr.full)})
+		tr.mu.Unlock()
+	}
 }
 
 func doUpdate(tr *tracer, l string, p pendT, t1in int, lost bool) {
@@ -334,7 +350,10 @@ func doUpdate(tr *tracer, l string, p pendT, t1in int, lost bool) {
 	// handleRequest returned (server_ip.go: txt1 = txt0 on failure)
 	lost = t1.Equal(p.txt)
 	tr.register(&t1, callInfo{l: l, t1in: t1in, lost: lost})
-	server.VerifUpdateTXTimestamp(p.c, p.rxt, &t1)
+	func() {
+		defer tr.recovered("U", l, p.c)
+		server.VerifUpdateTXTimestamp(p.c, p.rxt, &t1)
+	}()
 }
 
 func prefill(t testing.TB, modelCap int) {
@@ -357,10 +376,23 @@ func prefill(t testing.TB, modelCap int) {
 	}
 }
 
-func resetStore() {
+// resetStore removes the model clients. If the store is corrupt enough to make
+// the removal panic, the corruption has already been recorded (heap_ok=false)
+// or is recorded now; the store is then rebuilt from scratch.
+func resetStore() (panicked string) {
+	defer func() {
+		if r := recover(); r != nil {
+			panicked = fmt.Sprint(r)
+			func() {
+				defer func() { recover() }()
+				server.VerifReset(isFiller)
+			}()
+		}
+	}()
 	for _, c := range modelClients {
 		server.VerifRemove(c)
 	}
+	return ""
 }
 
 // TestReplay: VERIF_IN = behaviours (arrays of operations) from TLC;
@@ -375,7 +407,9 @@ func TestReplay(t *testing.T) {
 	tr := newTracer(modelCap == 0)
 	nops := 0
 	for bi, b := range behaviours {
-		resetStore()
+		if why := resetStore(); why != "" {
+			out.Emit(event{Ev: "panic", Why: "removing a client from the store left by the previous behaviour: " + why, Post: emptyPost(modelCap == 0)})
+		}
 		out.Emit(event{Ev: "reset", HeapOK: true, SeqSame: true, Post: emptyPost(modelCap == 0)})
 		tr.evs = tr.evs[:0]
 		pend := map[string]pendT{}
@@ -400,6 +434,10 @@ func TestReplay(t *testing.T) {
 		for _, e := range tr.evs {
 			out.Emit(e)
 		}
+		for _, e := range tr.panics {
+			out.Emit(e)
+		}
+		tr.panics = nil
 		// end of behaviour: full structural walk of the real store (incl. the
 		// fillers: every 20th behaviour and the last one when pre-filled)
 		e := event{Ev: "end", SeqSame: true}
@@ -498,8 +536,11 @@ func TestConcurrent(t *testing.T) {
 			}
 		}
 		out.Emit(event{Ev: "reset", HeapOK: true, SeqSame: true, Post: emptyPost(modelCap == 0)})
-		if len(tr2.evs) != len(conc) {
+		if len(tr2.evs) != len(conc) && len(tr.panics)+len(tr2.panics) == 0 {
 			t.Fatalf("sequential re-execution produced %d events, concurrent run %d", len(tr2.evs), len(conc))
+		}
+		if len(tr2.evs) != len(conc) {
+			conc = nil // a panic was recorded; it is reported below
 		}
 		for i := range conc {
 			a, b := conc[i], tr2.evs[i]
@@ -512,6 +553,9 @@ func TestConcurrent(t *testing.T) {
 			}
 			out.Emit(conc[i])
 			total++
+		}
+		for _, e := range append(tr.panics, tr2.panics...) {
+			out.Emit(e)
 		}
 		e := event{Ev: "end", SeqSame: true}
 		server.VerifLocked(func() {
